@@ -107,7 +107,21 @@ func c10progress(c *Ctx, fn *ssa.Function) {
 			if !ok1 || !ok2 || marker.Block() != need.Block() {
 				continue
 			}
-			if !strings.Contains(marker.Comment, "preNeed") && !strings.Contains(need.Comment, "need") {
+			// structural identification (no variable names): the marker is re-assigned from the counter in the loop
+			fromNeed := false
+			for _, e := range marker.Edges {
+				if e == ssa.Value(need) {
+					fromNeed = true
+				}
+				if p2, ok := e.(*ssa.Phi); ok {
+					for _, e2 := range p2.Edges {
+						if e2 == ssa.Value(need) {
+							fromNeed = true
+						}
+					}
+				}
+			}
+			if !fromNeed {
 				continue
 			}
 			hdr := marker.Block()
@@ -184,8 +198,24 @@ func c10distinct(c *Ctx, fn *ssa.Function) {
 				}
 			case *ssa.BinOp:
 				if k, isC := constIntOf(x.Y); isC && x.Op == token.SUB {
-					if phi, ok := x.X.(*ssa.Phi); ok && strings.Contains(phi.Comment, "needCPUs") {
-						dec = k
+					// the loop-carried counter: a phi that receives this difference back (directly or through a merge)
+					if phi, ok := x.X.(*ssa.Phi); ok {
+						back := false
+						for _, e := range phi.Edges {
+							if e == ssa.Value(x) {
+								back = true
+							}
+							if p2, ok := e.(*ssa.Phi); ok {
+								for _, e2 := range p2.Edges {
+									if e2 == ssa.Value(x) {
+										back = true
+									}
+								}
+							}
+						}
+						if back {
+							dec = k
+						}
 					}
 				}
 			}
